@@ -54,6 +54,15 @@ def run(prog: Program, rep: Report, tier: str) -> None:
         nf += check_opts_forwarding(rep, fwd, p)
     rep.floor('C02-D2 opts-forwarding', nf, 4)
 
+    # ---- D2e  the stopping test of the iterative solvers compares consecutive iterates with the caller's tol
+    for name in ('fixed_point', 'newton'):
+        g = prog.func(SP, name)
+        calls = [x for x in own_nodes(g.node) if isinstance(x, ast.Call) and callee_last(x) in ('shouldStop', 'allclose')]
+        rep.floor(f"C02-D2 stop-test in {name}", len(calls), 1)
+        for c in calls:
+            tol_arg = c.args[1] if len(c.args) > 1 else next((k.value for k in c.keywords if k.arg == 'tol'), None)
+            ok = isinstance(tol_arg, ast.Name) and tol_arg.id == 'tol'
+            rep.ob('C02-D2 stop-test', g.fq(), norm(c), g.loc(c), ok, 'the caller\'s tol is used unmodified' if ok else f"tolerance argument is `{norm(tol_arg) if tol_arg is not None else None}`")
     # ---- D3
     from ..absint import semiring_laws
     semiring_laws.check_star_at_one(prog, rep, 'C02-D3 star-at-radius')
